@@ -192,6 +192,10 @@ def same_outcome(a, b):
         if a and a[0] == "unit" and b[0] == "unit":
             return same_outcome(a[2:], b[2:])
         if a and a[0] == "quantity" and b[0] == "quantity":
+            if a[2] == b[2] and a[2] in _NARROW and same_outcome(tuple(a[4:]), tuple(b[4:])):
+                # single/half precision results: the scale of a restored unit may have changed *type* (np.float64 -> float; same
+                # value), and NumPy then rounds float32*scale once instead of twice: one unit in the last place of the narrow type
+                return _close_narrow(a[1], b[1], _NARROW[a[2]])
             return same_outcome((a[1], a[2]) + tuple(a[4:]), (b[1], b[2]) + tuple(b[4:]))
         return all(same_outcome(x, y) for x, y in zip(a, b))
     if isinstance(a, float):
@@ -203,6 +207,19 @@ def same_outcome(a, b):
     if isinstance(a, str):
         return a.replace("µ", "μ") == b.replace("µ", "μ")  # the micro-sign spelling is reported once, at restore time
     return a == b
+
+
+_NARROW = {"float32": 2.0**-23, "complex64": 2.0**-23, "float16": 2.0**-10}
+
+
+def _close_narrow(x, y, eps):
+    if isinstance(x, (list, tuple)):
+        return isinstance(y, (list, tuple)) and len(x) == len(y) and all(_close_narrow(p, q, eps) for p, q in zip(x, y))
+    if isinstance(x, complex) or isinstance(y, complex):
+        return _close_narrow(complex(x).real, complex(y).real, eps) and _close_narrow(complex(x).imag, complex(y).imag, eps)
+    if x == y or (x != x and y != y):
+        return True
+    return abs(x - y) <= 2 * eps * max(abs(x), abs(y))
 
 
 UNIT_SYSTEM_STEPS = {"unit_system_name", "in_base", "convert_inplace", "base_equiv", "pickle_again"}
